@@ -6,77 +6,6 @@ Import ListNotations.
 Local Open Scope string_scope.
 Local Open Scope Z_scope.
 
-(* saltpack.armorEncoderStream_Write, armor.go *)
-Definition f_saltpack_armorEncoderStream_Write : gfunc := mkFunc "saltpack.armorEncoderStream_Write" ["s"; "b"] [("n", "int"); ("err", "error")]
-     [SAssign ["n"; "err"] [(ECall "WriteCloser.Write" [(ESel (EVar "s") "encoder"); (EVar "b")])];
-      SIf [] (EBin ONe "bool" (EVar "err") ENil)
-      [SReturn [(EVar "n"); (EVar "err")]]
-      [];
-      SIf [SAssign ["err"] [(ECall "armorEncoderStream.spaceAndOutputBuffer" [(EVar "s")])]] (EBin ONe "bool" (EVar "err") ENil)
-      [SReturn [(EVar "n"); (EVar "err")]]
-      [];
-      SReturn [(EVar "n"); ENil]].
-
-(* saltpack.armorEncoderStream_spaceAndOutputBuffer, armor.go *)
-Definition f_saltpack_armorEncoderStream_spaceAndOutputBuffer : gfunc := mkFunc "saltpack.armorEncoderStream_spaceAndOutputBuffer" ["s"] []
-     [SFor (EBin OGt "bool" (ECall "Buffer.Len" [(ESel (EVar "s") "buf")]) (ESel (ESel (EVar "s") "params") "BytesPerWord"))
-      [SAssign ["buf"] [(ECall "Buffer.Next" [(ESel (EVar "s") "buf"); (ESel (ESel (EVar "s") "params") "BytesPerWord")])];
-      SOpAssignL (LField (LVar "s") "nWords") OAdd "int" (EInt 1);
-      SAssign ["sep"] [(EInt (32))];
-      SIf [] (EBin OEq "bool" (EBin OMod "int" (ESel (EVar "s") "nWords") (ESel (ESel (EVar "s") "params") "WordsPerLine")) (EInt (0)))
-      [SAssign ["sep"] [(EInt (10))]]
-      [];
-      SIf [SAssign ["_"; "err"] [(ECall "Writer.Write" [(ESel (EVar "s") "encoded"); (EVar "buf")])]] (EBin ONe "bool" (EVar "err") ENil)
-      [SReturn [(EVar "err")]]
-      [];
-      SIf [SAssign ["_"; "err"] [(ECall "Writer.Write" [(ESel (EVar "s") "encoded"); (ELit "[]byte" [("0", (EVar "sep"))])])]] (EBin ONe "bool" (EVar "err") ENil)
-      [SReturn [(EVar "err")]]
-      []];
-      SReturn [ENil]].
-
-(* saltpack.armorEncoderStream_Close, armor.go *)
-Definition f_saltpack_armorEncoderStream_Close : gfunc := mkFunc "saltpack.armorEncoderStream_Close" ["s"] [("err", "error")]
-     [SIf [SAssign ["err"] [(ECall "WriteCloser.Close" [(ESel (EVar "s") "encoder")])]] (EBin ONe "bool" (EVar "err") ENil)
-      [SReturn [(EVar "err")]]
-      [];
-      SIf [SAssign ["err"] [(ECall "armorEncoderStream.spaceAndOutputBuffer" [(EVar "s")])]] (EBin ONe "bool" (EVar "err") ENil)
-      [SReturn [(EVar "err")]]
-      [];
-      SAssign ["lst"] [(ECall "Buffer.Bytes" [(ESel (EVar "s") "buf")])];
-      SIf [SAssign ["_"; "err"] [(ECall "Writer.Write" [(ESel (EVar "s") "encoded"); (EVar "lst")])]] (EBin ONe "bool" (EVar "err") ENil)
-      [SReturn [(EVar "err")]]
-      [];
-      SOpAssignL (LField (LVar "s") "nWords") OAdd "int" (EInt 1);
-      SAssign ["pad"] [(EStr "")];
-      SIf [] (EBin OEq "bool" (ELen (EVar "lst")) (ESel (ESel (EVar "s") "params") "BytesPerWord"))
-      [SIf [] (EBin OEq "bool" (EBin OMod "int" (ESel (EVar "s") "nWords") (ESel (ESel (EVar "s") "params") "WordsPerLine")) (EInt (0)))
-      [SAssign ["pad"] [(EBytesLit [10])]]
-      [SAssign ["pad"] [(EStr " ")]]]
-      [];
-      SIf [SAssign ["_"; "err"] [(ECall "fmt.Fprintf" [(ESel (EVar "s") "encoded"); (EBytesLit [37; 115; 37; 99; 32; 37; 115; 37; 99; 10]); (EVar "pad"); (ESel (ESel (EVar "s") "params") "Punctuation"); (ESel (EVar "s") "footer"); (ESel (ESel (EVar "s") "params") "Punctuation")])]] (EBin ONe "bool" (EVar "err") ENil)
-      [SReturn [(EVar "err")]]
-      [];
-      SReturn [ENil]].
-
-(* saltpack.chunkReader_Read, chunk_reader.go *)
-Definition f_saltpack_chunkReader_Read : gfunc := mkFunc "saltpack.chunkReader_Read" ["r"; "p"] [("n", "int"); ("err", "error")]
-     [SFor (EBool true)
-      [SIf [] (EBin OGt "bool" (ELen (ESel (EVar "r") "prevChunk")) (EInt (0)))
-      [SAssign ["copied"] [(ECall "copy" [(ESlice (EVar "p") (Some (EVar "n")) None); (ESel (EVar "r") "prevChunk")])];
-      SOpAssign "n" OAdd "int" (EVar "copied");
-      SAssignL [(LField (LVar "r") "prevChunk")] [(ESlice (ESel (EVar "r") "prevChunk") (Some (EVar "copied")) None)];
-      SIf [] (EBin OGt "bool" (ELen (ESel (EVar "r") "prevChunk")) (EInt (0)))
-      [SReturn [(EVar "n"); ENil]]
-      []]
-      [];
-      SIf [] (EBin ONe "bool" (ESel (EVar "r") "prevErr") ENil)
-      [SReturn [(EVar "n"); (ESel (EVar "r") "prevErr")]]
-      [];
-      SAssignL [(LField (LVar "r") "prevChunk"); (LField (LVar "r") "prevErr")] [(ECall "chunker.getNextChunk" [(ESel (EVar "r") "chunker")])];
-      SIf [] (EBin OAnd "bool" (EBin OEq "bool" (ELen (ESel (EVar "r") "prevChunk")) (EInt (0))) (EBin OEq "bool" (ESel (EVar "r") "prevErr") ENil))
-      [SPanic (EStr "panic")]
-      []]].
-
 (* saltpack.IsSaltpackBinarySlice, classify_and_decrypt.go *)
 Definition f_saltpack_IsSaltpackBinarySlice : gfunc := mkFunc "saltpack.IsSaltpackBinarySlice" ["b"] [("msgType", "int"); ("version", "Version"); ("err", "error")]
      [SIf [] (EBin OLt "bool" (ELen (EVar "b")) (EInt (23)))
@@ -225,128 +154,6 @@ Definition f_saltpack_checkChunkState : gfunc := mkFunc "saltpack.checkChunkStat
 Definition f_saltpack_checkDecodedChunkState : gfunc := mkFunc "saltpack.checkDecodedChunkState" ["version"; "chunk"; "seqno"; "isFinal"] []
      [SReturn [(ECall "checkChunkState" [(EVar "version"); (ELen (EVar "chunk")); (EConv "uint64" (EBin OSub "uint64" (EVar "seqno") (EInt (1)))); (EVar "isFinal")])]].
 
-(* saltpack.decryptStream_getNextChunk, decrypt.go *)
-Definition f_saltpack_decryptStream_getNextChunk : gfunc := mkFunc "saltpack.decryptStream_getNextChunk" ["ds"] []
-     [SAssign ["ciphertext"; "authenticators"; "isFinal"; "seqno"; "err"] [(ECall "readEncryptionBlock" [(ESel (EVar "ds") "version"); (ESel (EVar "ds") "mps")])];
-      SIf [] (EBin ONe "bool" (EVar "err") ENil)
-      [SIf [] (EBin OEq "bool" (EVar "err") (EErrVar "io.EOF"))
-      [SAssign ["err"] [(EErrVar "io.ErrUnexpectedEOF")]]
-      [];
-      SReturn [ENil; (EVar "err")]]
-      [];
-      SAssign ["chunk"; "err"] [(ECall "decryptStream.processBlock" [(EVar "ds"); (EVar "ciphertext"); (EVar "authenticators"); (EVar "isFinal"); (EVar "seqno")])];
-      SIf [] (EBin ONe "bool" (EVar "err") ENil)
-      [SReturn [ENil; (EVar "err")]]
-      [];
-      SAssign ["err"] [(ECall "checkDecodedChunkState" [(ESel (EVar "ds") "version"); (EVar "chunk"); (EVar "seqno"); (EVar "isFinal")])];
-      SIf [] (EBin ONe "bool" (EVar "err") ENil)
-      [SReturn [ENil; (EVar "err")]]
-      [];
-      SIf [] (EVar "isFinal")
-      [SReturn [(EVar "chunk"); (ECall "assertEndOfStream" [(ESel (EVar "ds") "mps")])]]
-      [];
-      SReturn [(EVar "chunk"); ENil]].
-
-(* saltpack.decryptStream_tryVisibleReceivers, decrypt.go *)
-Definition f_saltpack_decryptStream_tryVisibleReceivers : gfunc := mkFunc "saltpack.decryptStream_tryVisibleReceivers" ["ds"; "hdr"; "ephemeralKey"] []
-     [SVar "kids" "[][]byte";
-      SAssign ["tab"] [(ECall "makemap" [])];
-      SRange "i" "r" (ESel (EVar "hdr") "Receivers")
-      [SIf [] (EBin ONe "bool" (ELen (ESel (EVar "r") "ReceiverKID")) (EInt (0)))
-      [SAssignL [(LMapIndex (LVar "tab") (ELen (EVar "kids")))] [(EVar "i")];
-      SAssign ["kids"] [(ECall "append" [(EVar "kids"); (ESel (EVar "r") "ReceiverKID")])]]
-      []];
-      SAssignL [(LField (LField (LVar "ds") "mki") "NamedReceivers")] [(EVar "kids")];
-      SAssign ["i"; "sk"] [(ECall "Keyring.LookupBoxSecretKey" [(ESel (EVar "ds") "ring"); (EVar "kids")])];
-      SIf [] (EBin OOr "bool" (EBin OLt "bool" (EVar "i") (EInt (0))) (EBin OEq "bool" (EVar "sk") ENil))
-      [SReturn [ENil; ENil; (EInt (-1)); ENil]]
-      [];
-      SMapLookup "orig" "ok" (EVar "tab") (EVar "i");
-      SIf [] (ENot (EVar "ok"))
-      [SReturn [ENil; ENil; (EInt (-1)); (EErrVar "ErrBadLookup")]]
-      [];
-      SAssign ["nonce"] [(ECall "nonceForPayloadKeyBox" [(ESel (EVar "hdr") "Version"); (EConv "uint64" (EVar "orig"))])];
-      SAssign ["payloadKeySlice"; "err"] [(ECall "BoxSecretKey.Unbox" [(EVar "sk"); (EVar "ephemeralKey"); (EVar "nonce"); (ESel (EIdx (ESel (EVar "hdr") "Receivers") (EVar "orig")) "PayloadKeyBox")])];
-      SIf [] (EBin ONe "bool" (EVar "err") ENil)
-      [SReturn [ENil; ENil; (EInt (-1)); (EVar "err")]]
-      [];
-      SAssign ["payloadKey"; "err"] [(ECall "symmetricKeyFromSlice" [(EVar "payloadKeySlice")])];
-      SIf [] (EBin ONe "bool" (EVar "err") ENil)
-      [SReturn [ENil; ENil; (EInt (-1)); (EVar "err")]]
-      [];
-      SReturn [(EVar "sk"); (EVar "payloadKey"); (EVar "orig"); (EVar "err")]].
-
-(* saltpack.decryptStream_tryHiddenReceivers, decrypt.go *)
-Definition f_saltpack_decryptStream_tryHiddenReceivers : gfunc := mkFunc "saltpack.decryptStream_tryHiddenReceivers" ["ds"; "hdr"; "ephemeralKey"] []
-     [SAssign ["secretKeys"] [(ECall "Keyring.GetAllBoxSecretKeys" [(ESel (EVar "ds") "ring")])];
-      SRange "_" "r" (ESel (EVar "hdr") "Receivers")
-      [SIf [] (EBin OEq "bool" (ELen (ESel (EVar "r") "ReceiverKID")) (EInt (0)))
-      [SOpAssignL (LField (LField (LVar "ds") "mki") "NumAnonReceivers") OAdd "int" (EInt 1)]
-      []];
-      SRange "_" "secretKey" (EVar "secretKeys")
-      [SAssign ["shared"] [(ECall "BoxSecretKey.Precompute" [(EVar "secretKey"); (EVar "ephemeralKey")])];
-      SRange "i" "r" (ESel (EVar "hdr") "Receivers")
-      [SIf [] (EBin OEq "bool" (ELen (ESel (EVar "r") "ReceiverKID")) (EInt (0)))
-      [SAssign ["nonce"] [(ECall "nonceForPayloadKeyBox" [(ESel (EVar "hdr") "Version"); (EConv "uint64" (EVar "i"))])];
-      SAssign ["payloadKeySlice"; "err"] [(ECall "BoxPrecomputedSharedKey.Unbox" [(EVar "shared"); (EVar "nonce"); (ESel (EVar "r") "PayloadKeyBox")])];
-      SIf [] (EBin ONe "bool" (EVar "err") ENil)
-      [SContinue]
-      [];
-      SAssign ["payloadKey"; "err"] [(ECall "symmetricKeyFromSlice" [(EVar "payloadKeySlice")])];
-      SIf [] (EBin ONe "bool" (EVar "err") ENil)
-      [SReturn [ENil; ENil; (EInt (-1)); (EVar "err")]]
-      [];
-      SReturn [(EVar "secretKey"); (EVar "payloadKey"); (EVar "i"); ENil]]
-      []]];
-      SReturn [ENil; ENil; (EInt (-1)); ENil]].
-
-(* saltpack.decryptStream_processHeader, decrypt.go *)
-Definition f_saltpack_decryptStream_processHeader : gfunc := mkFunc "saltpack.decryptStream_processHeader" ["ds"; "hdr"] []
-     [SIf [SAssign ["err"] [(ECall "EncryptionHeader.validate" [(EVar "hdr"); (ESel (EVar "ds") "versionValidator")])]] (EBin ONe "bool" (EVar "err") ENil)
-      [SReturn [(EVar "err")]]
-      [];
-      SAssignL [(LField (LVar "ds") "version")] [(ESel (EVar "hdr") "Version")];
-      SAssign ["ephemeralKey"] [(ECall "Keyring.ImportBoxEphemeralKey" [(ESel (EVar "ds") "ring"); (ESel (EVar "hdr") "Ephemeral")])];
-      SIf [] (EBin OEq "bool" (EVar "ephemeralKey") ENil)
-      [SReturn [(EErrVar "ErrBadEphemeralKey")]]
-      [];
-      SVar "secretKey" "BoxSecretKey";
-      SVar "err" "error";
-      SAssignL [(LVar "secretKey"); (LField (LVar "ds") "payloadKey"); (LField (LVar "ds") "position"); (LVar "err")] [(ECall "decryptStream.tryVisibleReceivers" [(EVar "ds"); (EVar "hdr"); (EVar "ephemeralKey")])];
-      SIf [] (EBin ONe "bool" (EVar "err") ENil)
-      [SReturn [(EVar "err")]]
-      [];
-      SIf [] (EBin OEq "bool" (EVar "secretKey") ENil)
-      [SAssignL [(LVar "secretKey"); (LField (LVar "ds") "payloadKey"); (LField (LVar "ds") "position"); (LVar "err")] [(ECall "decryptStream.tryHiddenReceivers" [(EVar "ds"); (EVar "hdr"); (EVar "ephemeralKey")])];
-      SAssignL [(LField (LField (LVar "ds") "mki") "ReceiverIsAnon")] [(EBool true)]]
-      [];
-      SIf [] (EBin ONe "bool" (EVar "err") ENil)
-      [SReturn [(EVar "err")]]
-      [];
-      SIf [] (EBin OOr "bool" (EBin OEq "bool" (EVar "secretKey") ENil) (EBin OLt "bool" (ESel (EVar "ds") "position") (EInt (0))))
-      [SReturn [(EErrVar "ErrNoDecryptionKey")]]
-      [];
-      SAssignL [(LField (LField (LVar "ds") "mki") "ReceiverKey")] [(EVar "secretKey")];
-      SAssign ["nonce"] [(ECall "nonceForSenderKeySecretBox" [])];
-      SAssign ["senderKeySlice"; "ok"] [(ECall "secretbox.Open" [(ELit "[]byte" []); (ESel (EVar "hdr") "SenderSecretbox"); (EVar "nonce"); (ESel (EVar "ds") "payloadKey")])];
-      SIf [] (ENot (EVar "ok"))
-      [SReturn [(EErrVar "ErrBadSenderKeySecretbox")]]
-      [];
-      SAssignL [(LField (LVar "ds") "senderKey"); (LVar "err")] [(ECall "rawBoxKeyFromSlice" [(EVar "senderKeySlice")])];
-      SIf [] (EBin ONe "bool" (EVar "err") ENil)
-      [SReturn [(EVar "err")]]
-      [];
-      SIf [] (ENot (ECall "hmac.Equal" [(ESel (EVar "hdr") "Ephemeral"); (ESlice (ESel (EVar "ds") "senderKey") None None)]))
-      [SAssign ["longLivedSenderKey"] [(ECall "Keyring.LookupBoxPublicKey" [(ESel (EVar "ds") "ring"); (ESlice (ESel (EVar "ds") "senderKey") None None)])];
-      SIf [] (EBin OEq "bool" (EVar "longLivedSenderKey") ENil)
-      [SReturn [(ELit "ErrNoSenderKey" [("Sender", (ESlice (ESel (EVar "ds") "senderKey") None None))])]]
-      [];
-      SAssignL [(LField (LField (LVar "ds") "mki") "SenderKey")] [(EVar "longLivedSenderKey")]]
-      [SAssignL [(LField (LField (LVar "ds") "mki") "SenderIsAnon")] [(EBool true)];
-      SAssignL [(LField (LField (LVar "ds") "mki") "SenderKey")] [(EVar "ephemeralKey")]];
-      SAssignL [(LField (LVar "ds") "macKey")] [(ECall "computeMACKeyReceiver" [(ESel (EVar "hdr") "Version"); (EConv "uint64" (ESel (EVar "ds") "position")); (EVar "secretKey"); (ESel (ESel (EVar "ds") "mki") "SenderKey"); (EVar "ephemeralKey"); (ESel (EVar "ds") "headerHash")])];
-      SReturn [ENil]].
-
 (* saltpack.computeMACKeyReceiver, decrypt.go *)
 Definition f_saltpack_computeMACKeyReceiver : gfunc := mkFunc "saltpack.computeMACKeyReceiver" ["version"; "index"; "secret"; "public"; "ePublic"; "headerHash"] []
      [SSwitch [] (Some (ESel (EVar "version") "Major"))
@@ -380,44 +187,6 @@ Definition f_saltpack_decryptStream_processBlock : gfunc := mkFunc "saltpack.dec
       [];
       SReturn [(EVar "plaintext"); ENil]].
 
-(* saltpack.encryptStream_Write, encrypt.go *)
-Definition f_saltpack_encryptStream_Write : gfunc := mkFunc "saltpack.encryptStream_Write" ["es"; "plaintext"] []
-     [SIf [] (EBin ONe "bool" (ESel (EVar "es") "err") ENil)
-      [SReturn [(EInt (0)); (ESel (EVar "es") "err")]]
-      [];
-      SVar "ret" "int";
-      SIf [SAssignL [(LVar "ret"); (LField (LVar "es") "err")] [(ECall "Buffer.Write" [(ESel (EVar "es") "buffer"); (EVar "plaintext")])]] (EBin ONe "bool" (ESel (EVar "es") "err") ENil)
-      [SReturn [(EInt (0)); (ESel (EVar "es") "err")]]
-      [];
-      SFor (EBin OGt "bool" (ECall "Buffer.Len" [(ESel (EVar "es") "buffer")]) (EInt (1048576)))
-      [SAssignL [(LField (LVar "es") "err")] [(ECall "encryptStream.encryptBlock" [(EVar "es"); (EBool false)])];
-      SIf [] (EBin ONe "bool" (ESel (EVar "es") "err") ENil)
-      [SReturn [(EInt (0)); (ESel (EVar "es") "err")]]
-      []];
-      SReturn [(EVar "ret"); ENil]].
-
-(* saltpack.encryptStream_encryptBlock, encrypt.go *)
-Definition f_saltpack_encryptStream_encryptBlock : gfunc := mkFunc "saltpack.encryptStream_encryptBlock" ["es"; "isFinal"] []
-     [SAssign ["plaintext"] [(ECall "Buffer.Next" [(ESel (EVar "es") "buffer"); (EInt (1048576))])];
-      SExpr (ECall "checkEncryptBlockRead" [(ESel (EVar "es") "version"); (EVar "isFinal"); (EInt (1048576)); (ELen (EVar "plaintext")); (ECall "Buffer.Len" [(ESel (EVar "es") "buffer")])]);
-      SIf [SAssign ["err"] [(ECall "encryptionBlockNumber.check" [(ESel (EVar "es") "numBlocks")])]] (EBin ONe "bool" (EVar "err") ENil)
-      [SReturn [(EVar "err")]]
-      [];
-      SAssign ["nonce"] [(ECall "nonceForChunkSecretBox" [(ESel (EVar "es") "numBlocks")])];
-      SAssign ["ciphertext"] [(ECall "secretbox.Seal" [(ELit "[]byte" []); (EVar "plaintext"); (EVar "nonce"); (ESel (EVar "es") "payloadKey")])];
-      SExpr (ECall "assertEncodedChunkState" [(ESel (EVar "es") "version"); (EVar "ciphertext"); (EInt (16)); (EConv "uint64" (ESel (EVar "es") "numBlocks")); (EVar "isFinal")]);
-      SAssign ["hashToAuthenticate"] [(ECall "computePayloadHash" [(ESel (EVar "es") "version"); (ESel (EVar "es") "headerHash"); (EVar "nonce"); (EVar "ciphertext"); (EVar "isFinal")])];
-      SVar "authenticators" "[]payloadAuthenticator";
-      SRange "_" "macKey" (ESel (EVar "es") "macKeys")
-      [SAssign ["authenticator"] [(ECall "computePayloadAuthenticator" [(EVar "macKey"); (EVar "hashToAuthenticate")])];
-      SAssign ["authenticators"] [(ECall "append" [(EVar "authenticators"); (EVar "authenticator")])]];
-      SAssign ["eBlock"] [(ECall "makeEncryptionBlock" [(ESel (EVar "es") "version"); (EVar "ciphertext"); (EVar "authenticators"); (EVar "isFinal")])];
-      SIf [SAssign ["err"] [(ECall "encoder.Encode" [(ESel (EVar "es") "encoder"); (EVar "eBlock")])]] (EBin ONe "bool" (EVar "err") ENil)
-      [SReturn [(EVar "err")]]
-      [];
-      SOpAssignL (LField (LVar "es") "numBlocks") OAdd "uint64" (EInt 1);
-      SReturn [ENil]].
-
 (* saltpack.checkKnownVersion, encrypt.go *)
 Definition f_saltpack_checkKnownVersion : gfunc := mkFunc "saltpack.checkKnownVersion" ["version"] []
      [SRange "_" "knownVersion" (ECall "KnownVersions" [])
@@ -425,121 +194,6 @@ Definition f_saltpack_checkKnownVersion : gfunc := mkFunc "saltpack.checkKnownVe
       [SReturn [ENil]]
       []];
       SReturn [(ELit "ErrBadVersion" [("received", (EVar "version"))])]].
-
-(* saltpack.checkEncryptReceivers, encrypt.go *)
-Definition f_saltpack_checkEncryptReceivers : gfunc := mkFunc "saltpack.checkEncryptReceivers" ["receivers"] []
-     [SAssign ["receiverCount"] [(EConv "int64" (ELen (EVar "receivers")))];
-      SIf [] (EBin OOr "bool" (EBin OLe "bool" (EVar "receiverCount") (EInt (0))) (EBin OGt "bool" (EVar "receiverCount") (EInt (4294967295))))
-      [SReturn [(EErrVar "ErrBadReceivers")]]
-      [];
-      SAssign ["receiverSet"] [(ECall "makemap" [])];
-      SRange "_" "receiver" (EVar "receivers")
-      [SAssign ["kid"] [(ECall "BoxPublicKey.ToKID" [(EVar "receiver")])];
-      SAssign ["kidString"] [(EConv "string" (EVar "kid"))];
-      SIf [] (EMapGet (EVar "receiverSet") (EVar "kidString"))
-      [SReturn [(ELit "ErrRepeatedKey" [("0", (EVar "kid"))])]]
-      [];
-      SAssignL [(LMapIndex (LVar "receiverSet") (EVar "kidString"))] [(EBool true)]];
-      SReturn [ENil]].
-
-(* saltpack.shuffleEncryptReceivers, encrypt.go *)
-Definition f_saltpack_shuffleEncryptReceivers : gfunc := mkFunc "saltpack.shuffleEncryptReceivers" ["receivers"] []
-     [SAssign ["shuffled"] [(ECall "make" [(ELen (EVar "receivers"))])];
-      SExpr (ECall "copy" [(EVar "shuffled"); (EVar "receivers")]);
-      SAssign ["err"] [(ECall "csprngShuffle" [(EPkg "cryptorand.Reader"); (ELen (EVar "shuffled")); (EUnsup "*ast.FuncLit")])];
-      SIf [] (EBin ONe "bool" (EVar "err") ENil)
-      [SReturn [ENil; (EVar "err")]]
-      [];
-      SReturn [(EVar "shuffled"); ENil]].
-
-(* saltpack.encryptStream_init, encrypt.go *)
-Definition f_saltpack_encryptStream_init : gfunc := mkFunc "saltpack.encryptStream_init" ["es"; "version"; "sender"; "receivers"; "ephemeralKeyCreator"; "rng"] []
-     [SIf [SAssign ["err"] [(ECall "checkKnownVersion" [(EVar "version")])]] (EBin ONe "bool" (EVar "err") ENil)
-      [SReturn [(EVar "err")]]
-      [];
-      SIf [SAssign ["err"] [(ECall "checkEncryptReceivers" [(EVar "receivers")])]] (EBin ONe "bool" (EVar "err") ENil)
-      [SReturn [(EVar "err")]]
-      [];
-      SAssign ["receivers"; "err"] [(ECall "encryptRNG.shuffleReceivers" [(EVar "rng"); (EVar "receivers")])];
-      SIf [] (EBin ONe "bool" (EVar "err") ENil)
-      [SReturn [(EVar "err")]]
-      [];
-      SAssign ["ephemeralKey"; "err"] [(ECall "EphemeralKeyCreator.CreateEphemeralKey" [(EVar "ephemeralKeyCreator")])];
-      SIf [] (EBin ONe "bool" (EVar "err") ENil)
-      [SReturn [(EVar "err")]]
-      [];
-      SIf [] (EBin OEq "bool" (EVar "sender") ENil)
-      [SAssign ["sender"] [(EVar "ephemeralKey")]]
-      [];
-      SAssign ["eh"] [(ELit "EncryptionHeader" [("FormatName", (EStr "saltpack")); ("Version", (EVar "version")); ("Type", (EInt (0))); ("Ephemeral", (ECall "BoxPublicKey.ToKID" [(ECall "BoxSecretKey.GetPublicKey" [(EVar "ephemeralKey")])])); ("Receivers", (ECall "make" [(EUnsup "*ast.ArrayType"); (EInt (0)); (ELen (EVar "receivers"))]))])];
-      SAssign ["payloadKey"; "err"] [(ECall "encryptRNG.createSymmetricKey" [(EVar "rng")])];
-      SIf [] (EBin ONe "bool" (EVar "err") ENil)
-      [SReturn [(EVar "err")]]
-      [];
-      SAssignL [(LField (LVar "es") "payloadKey")] [(EVar "payloadKey")];
-      SAssign ["nonce"] [(ECall "nonceForSenderKeySecretBox" [])];
-      SAssignL [(LField (LVar "eh") "SenderSecretbox")] [(ECall "secretbox.Seal" [(ELit "[]byte" []); (ECall "BoxPublicKey.ToKID" [(ECall "BoxSecretKey.GetPublicKey" [(EVar "sender")])]); (EVar "nonce"); (ESel (EVar "es") "payloadKey")])];
-      SRange "i" "receiver" (EVar "receivers")
-      [SAssign ["sharedKey"] [(ECall "BoxSecretKey.Precompute" [(EVar "ephemeralKey"); (EVar "receiver")])];
-      SAssign ["nonce"] [(ECall "nonceForPayloadKeyBox" [(EVar "version"); (EConv "uint64" (EVar "i"))])];
-      SAssign ["payloadKeyBox"] [(ECall "BoxPrecomputedSharedKey.Box" [(EVar "sharedKey"); (EVar "nonce"); (ESlice (ESel (EVar "es") "payloadKey") None None)])];
-      SAssign ["keys"] [(ELit "receiverKeys" [("PayloadKeyBox", (EVar "payloadKeyBox"))])];
-      SIf [] (ENot (ECall "BoxPublicKey.HideIdentity" [(EVar "receiver")]))
-      [SAssignL [(LField (LVar "keys") "ReceiverKID")] [(ECall "BoxPublicKey.ToKID" [(EVar "receiver")])]]
-      [];
-      SAssignL [(LField (LVar "eh") "Receivers")] [(ECall "append" [(ESel (EVar "eh") "Receivers"); (EVar "keys")])]];
-      SAssign ["headerBytes"; "err"] [(ECall "encodeToBytes" [(EVar "eh")])];
-      SIf [] (EBin ONe "bool" (EVar "err") ENil)
-      [SReturn [(EVar "err")]]
-      [];
-      SAssignL [(LField (LVar "es") "headerHash")] [(ECall "sha512.Sum512" [(EVar "headerBytes")])];
-      SAssign ["err"] [(ECall "encoder.Encode" [(ESel (EVar "es") "encoder"); (EVar "headerBytes")])];
-      SIf [] (EBin ONe "bool" (EVar "err") ENil)
-      [SReturn [(EVar "err")]]
-      [];
-      SAssignL [(LField (LVar "es") "macKeys")] [(ECall "computeMACKeysSender" [(EVar "version"); (EVar "sender"); (EVar "ephemeralKey"); (EVar "receivers"); (ESel (EVar "es") "headerHash")])];
-      SReturn [ENil]].
-
-(* saltpack.encryptStream_Close, encrypt.go *)
-Definition f_saltpack_encryptStream_Close : gfunc := mkFunc "saltpack.encryptStream_Close" ["es"] []
-     [SSwitch [] (Some (ESel (EVar "es") "version"))
-      [([(ECall "Version1" [])], [SIf [] (EBin OGt "bool" (ECall "Buffer.Len" [(ESel (EVar "es") "buffer")]) (EInt (0)))
-      [SAssign ["err"] [(ECall "encryptStream.encryptBlock" [(EVar "es"); (EBool false)])];
-      SIf [] (EBin ONe "bool" (EVar "err") ENil)
-      [SReturn [(EVar "err")]]
-      []]
-      [];
-      SIf [] (EBin OGt "bool" (ECall "Buffer.Len" [(ESel (EVar "es") "buffer")]) (EInt (0)))
-      [SPanic (EStr "panic")]
-      [];
-      SReturn [(ECall "encryptStream.encryptBlock" [(EVar "es"); (EBool true)])]]);
-       ([(ECall "Version2" [])], [SAssign ["err"] [(ECall "encryptStream.encryptBlock" [(EVar "es"); (EBool true)])];
-      SIf [] (EBin ONe "bool" (EVar "err") ENil)
-      [SReturn [(EVar "err")]]
-      [];
-      SIf [] (EBin OGt "bool" (ECall "Buffer.Len" [(ESel (EVar "es") "buffer")]) (EInt (0)))
-      [SPanic (EStr "panic")]
-      [];
-      SReturn [ENil]])]
-      (Some [SPanic (EStr "panic")])].
-
-(* saltpack.rawBoxKeyFromSlice, key.go *)
-Definition f_saltpack_rawBoxKeyFromSlice : gfunc := mkFunc "saltpack.rawBoxKeyFromSlice" ["slice"] []
-     [SAssign ["result"] [(ECall "make" [(EInt (32))])];
-      SIf [] (EBin ONe "bool" (ELen (EVar "slice")) (EInt (32)))
-      [SReturn [ENil; (EErrVar "ErrBadBoxKey")]]
-      [];
-      SAssign ["result"] [(ECall "sliceToByte32" [(EVar "slice")])];
-      SReturn [(EAddr "result"); ENil]].
-
-(* saltpack.symmetricKeyFromSlice, key.go *)
-Definition f_saltpack_symmetricKeyFromSlice : gfunc := mkFunc "saltpack.symmetricKeyFromSlice" ["slice"] []
-     [SAssign ["result"] [(ECall "make" [(EInt (32))])];
-      SIf [] (EBin ONe "bool" (ELen (EVar "slice")) (EInt (32)))
-      [SReturn [ENil; (EErrVar "ErrBadSymmetricKey")]]
-      [];
-      SAssign ["result"] [(ECall "sliceToByte32" [(EVar "slice")])];
-      SReturn [(EAddr "result"); ENil]].
 
 (* saltpack.nonceForSenderKeySecretBox, nonce.go *)
 Definition f_saltpack_nonceForSenderKeySecretBox : gfunc := mkFunc "saltpack.nonceForSenderKeySecretBox" [] []
@@ -638,63 +292,6 @@ Definition f_saltpack_SignatureHeader_validate : gfunc := mkFunc "saltpack.Signa
       [];
       SReturn [ENil]].
 
-(* saltpack.punctuatedReader_Read, punctuated_reader.go *)
-Definition f_saltpack_punctuatedReader_Read : gfunc := mkFunc "saltpack.punctuatedReader_Read" ["p"; "out"] [("n", "int"); ("err", "error")]
-     [SIf [] (EBin OGt "bool" (ELen (ESel (EVar "p") "thisSegment")) (EInt (0)))
-      [SAssign ["n"] [(ECall "copy" [(EVar "out"); (ESel (EVar "p") "thisSegment")])];
-      SAssignL [(LField (LVar "p") "thisSegment")] [(ESlice (ESel (EVar "p") "thisSegment") (Some (EVar "n")) None)];
-      SIf [] (EBin OEq "bool" (ELen (ESel (EVar "p") "thisSegment")) (EInt (0)))
-      [SAssign ["err"] [(ESel (EVar "p") "errThisSegment")];
-      SAssignL [(LField (LVar "p") "errThisSegment")] [ENil]]
-      [];
-      SReturn [(EVar "n"); (EVar "err")]]
-      [];
-      SVar "src" "[]byte";
-      SAssign ["usedBuffer"] [(EBool false)];
-      SIf [] (EBin OGt "bool" (ELen (ESel (EVar "p") "nextSegment")) (EInt (0)))
-      [SAssign ["src"] [(ESel (EVar "p") "nextSegment")];
-      SAssign ["usedBuffer"] [(EBool true)];
-      SAssignL [(LField (LVar "p") "nextSegment")] [ENil]]
-      [SIf [] (EBin ONe "bool" (ESel (EVar "p") "errRead") ENil)
-      [SReturn [(EInt (0)); (ESel (EVar "p") "errRead")]]
-      [];
-      SAssign ["n"; "err"] [(ECall "Reader.Read" [(ESel (EVar "p") "r"); (EVar "out")])];
-      SIf [] (EBin ONe "bool" (EVar "err") ENil)
-      [SIf [] (EBin OEq "bool" (EVar "n") (EInt (0)))
-      [SReturn [(EInt (0)); (EVar "err")]]
-      [];
-      SAssignL [(LField (LVar "p") "errRead")] [(EVar "err")];
-      SAssign ["err"] [ENil]]
-      [];
-      SAssign ["src"] [(ESlice (EVar "out") (Some (EInt (0))) (Some (EVar "n")))]];
-      SAssign ["foundPunc"] [(EBool false)];
-      SIf [SAssign ["i"] [(ECall "bytes.Index" [(EVar "src"); (ESlice (ESel (EVar "p") "punctuation") None None)])]] (EBin OGe "bool" (EVar "i") (EInt (0)))
-      [SAssignL [(LField (LVar "p") "nextSegment")] [(ESlice (EVar "src") (Some (EBin OAdd "int" (EVar "i") (EInt (1)))) None)];
-      SAssign ["src"] [(ESlice (EVar "src") (Some (EInt (0))) (Some (EVar "i")))];
-      SAssign ["n"] [(ELen (EVar "src"))];
-      SAssign ["foundPunc"] [(EBool true)]]
-      [];
-      SIf [] (EVar "usedBuffer")
-      [SAssign ["n"] [(ECall "copy" [(EVar "out"); (EVar "src")])];
-      SAssignL [(LField (LVar "p") "thisSegment")] [(ESlice (EVar "src") (Some (EVar "n")) None)]]
-      [];
-      SIf [] (EVar "foundPunc")
-      [SIf [] (EBin OGt "bool" (ELen (ESel (EVar "p") "thisSegment")) (EInt (0)))
-      [SAssignL [(LField (LVar "p") "errThisSegment")] [(EErrVar "ErrPunctuated")]]
-      [SAssign ["err"] [(EErrVar "ErrPunctuated")]]]
-      [];
-      SReturn [(EVar "n"); (EVar "err")]].
-
-(* saltpack.punctuatedReader_ReadUntilPunctuation, punctuated_reader.go *)
-Definition f_saltpack_punctuatedReader_ReadUntilPunctuation : gfunc := mkFunc "saltpack.punctuatedReader_ReadUntilPunctuation" ["p"; "lim"] [("res", "[]byte"); ("err", "error")]
-     [SFor (EBool true)
-      [SVar "n" "int";
-      SAssign ["n"; "err"] [(ECall "punctuatedReader.Read" [(EVar "p"); (ESlice (ESel (EVar "p") "buf") None None)])];
-      SUnsup "fallthrough";
-      SIf [] (EBin OEq "bool" (EVar "n") (EInt (0)))
-      [SReturn [ENil; (EErrVar "io.ErrUnexpectedEOF")]]
-      []]].
-
 (* saltpack.csprngUint32n, rand.go *)
 Definition f_saltpack_csprngUint32n : gfunc := mkFunc "saltpack.csprngUint32n" ["csprng"; "n"] []
      [SAssign ["v"; "err"] [(ECall "csprngUint32" [(EVar "csprng")])];
@@ -714,144 +311,6 @@ Definition f_saltpack_csprngUint32n : gfunc := mkFunc "saltpack.csprngUint32n" [
       SAssign ["low"] [(EConv "uint32" (EVar "prod"))]]]
       [];
       SReturn [(EConv "uint32" (EBin OShr "uint64" (EVar "prod") (EInt (32)))); ENil]].
-
-(* saltpack.csprngShuffle, rand.go *)
-Definition f_saltpack_csprngShuffle : gfunc := mkFunc "saltpack.csprngShuffle" ["csprng"; "n"; "swap"] []
-     [SIf [] (EBin OLt "bool" (EVar "n") (EInt (0)))
-      [SPanic (EStr "panic")]
-      [];
-      SIf [] (EBin OGt "bool" (EVar "n") (EInt (2147483647)))
-      [SPanic (EStr "panic")]
-      [];
-      SIf [SAssign ["i"] [(EBin OSub "int" (EVar "n") (EInt (1)))]] (EBool true) [SFor (EBin OGt "bool" (EVar "i") (EInt (0)))
-      ([SAssign ["j"; "err"] [(ECall "csprngUint32n" [(EVar "csprng"); (EConv "uint32" (EBin OAdd "int" (EVar "i") (EInt (1))))])];
-      SIf [] (EBin ONe "bool" (EVar "err") ENil)
-      [SReturn [(EVar "err")]]
-      [];
-      SExpr (ECall "swap" [(EVar "i"); (EConv "int" (EVar "j"))])] ++ [SOpAssign "i" OSub "int" (EInt 1)])] [];
-      SReturn [ENil]].
-
-(* saltpack.signcryptOpenStream_getNextChunk, signcrypt_open.go *)
-Definition f_saltpack_signcryptOpenStream_getNextChunk : gfunc := mkFunc "saltpack.signcryptOpenStream_getNextChunk" ["sos"] []
-     [SVar "sb" "signcryptionBlock";
-      SAssign ["seqno"; "err"] [(ECall "msgpackStream.Read" [(ESel (EVar "sos") "mps"); (EAddr "sb")])];
-      SIf [] (EBin ONe "bool" (EVar "err") ENil)
-      [SIf [] (EBin OEq "bool" (EVar "err") (EErrVar "io.EOF"))
-      [SAssign ["err"] [(EErrVar "io.ErrUnexpectedEOF")]]
-      [];
-      SReturn [ENil; (EVar "err")]]
-      [];
-      SAssign ["chunk"; "err"] [(ECall "signcryptOpenStream.processBlock" [(EVar "sos"); (ESel (EVar "sb") "PayloadCiphertext"); (ESel (EVar "sb") "IsFinal"); (EVar "seqno")])];
-      SIf [] (EBin ONe "bool" (EVar "err") ENil)
-      [SReturn [ENil; (EVar "err")]]
-      [];
-      SAssign ["err"] [(ECall "checkDecodedChunkState" [(ECall "Version2" []); (EVar "chunk"); (EVar "seqno"); (ESel (EVar "sb") "IsFinal")])];
-      SIf [] (EBin ONe "bool" (EVar "err") ENil)
-      [SReturn [ENil; (EVar "err")]]
-      [];
-      SIf [] (ESel (EVar "sb") "IsFinal")
-      [SReturn [(EVar "chunk"); (ECall "assertEndOfStream" [(ESel (EVar "sos") "mps")])]]
-      [];
-      SReturn [(EVar "chunk"); ENil]].
-
-(* saltpack.signcryptOpenStream_tryBoxSecretKeys, signcrypt_open.go *)
-Definition f_saltpack_signcryptOpenStream_tryBoxSecretKeys : gfunc := mkFunc "saltpack.signcryptOpenStream_tryBoxSecretKeys" ["sos"; "hdr"; "ephemeralPub"] []
-     [SAssign ["derivedKeys"] [(ECall "makemap" [])];
-      SRange "_" "receiverBoxSecretKey" (ECall "SigncryptKeyring.GetAllBoxSecretKeys" [(ESel (EVar "sos") "keyring")])
-      [SAssign ["derivedKey"] [(ECall "derivedEphemeralKeyFromBoxKeys" [(EVar "ephemeralPub"); (EVar "receiverBoxSecretKey")])];
-      SAssign ["derivedKeys"] [(ECall "append" [(EVar "derivedKeys"); (EVar "derivedKey")])]];
-      SRange "receiverIndex" "receiver" (ESel (EVar "hdr") "Receivers")
-      [SRange "_" "derivedKey" (EVar "derivedKeys")
-      [SAssign ["identifier"] [(ECall "keyIdentifierFromDerivedKey" [(EVar "derivedKey"); (EConv "uint64" (EVar "receiverIndex"))])];
-      SIf [] (ECall "hmac.Equal" [(EVar "identifier"); (ESel (EVar "receiver") "ReceiverKID")])
-      [SAssign ["nonce"] [(ECall "nonceForPayloadKeyBoxV2" [(EConv "uint64" (EVar "receiverIndex"))])];
-      SAssign ["payloadKey"; "isValid"] [(ECall "secretbox.Open" [ENil; (ESel (EVar "receiver") "PayloadKeyBox"); (EVar "nonce"); (EVar "derivedKey")])];
-      SIf [] (ENot (EVar "isValid"))
-      [SReturn [ENil; (EErrVar "ErrDecryptionFailed")]]
-      [];
-      SAssign ["r'0"; "r'1"] [(ECall "symmetricKeyFromSlice" [(EVar "payloadKey")])];
-      SReturn [(EVar "r'0"); (EVar "r'1")]]
-      []]];
-      SReturn [ENil; ENil]].
-
-(* saltpack.signcryptOpenStream_trySharedSymmetricKeys, signcrypt_open.go *)
-Definition f_saltpack_signcryptOpenStream_trySharedSymmetricKeys : gfunc := mkFunc "saltpack.signcryptOpenStream_trySharedSymmetricKeys" ["sos"; "hdr"; "ephemeralPub"] []
-     [SAssign ["identifiers"] [(ECall "makemap" [])];
-      SRange "_" "receiver" (ESel (EVar "hdr") "Receivers")
-      [SAssign ["identifiers"] [(ECall "append" [(EVar "identifiers"); (ESel (EVar "receiver") "ReceiverKID")])]];
-      SIf [] (EBin OEq "bool" (ESel (EVar "sos") "resolver") ENil)
-      [SReturn [ENil; ENil]]
-      [];
-      SAssign ["resolvedKeys"; "err"] [(ECall "SymmetricKeyResolver.ResolveKeys" [(ESel (EVar "sos") "resolver"); (EVar "identifiers")])];
-      SIf [] (EBin ONe "bool" (EVar "err") ENil)
-      [SReturn [ENil; (EVar "err")]]
-      [];
-      SIf [] (EBin ONe "bool" (ELen (EVar "resolvedKeys")) (ELen (EVar "identifiers")))
-      [SReturn [ENil; (EErrVar "ErrWrongNumberOfKeys")]]
-      [];
-      SRange "index" "resolved" (EVar "resolvedKeys")
-      [SIf [] (EBin OEq "bool" (EVar "resolved") ENil)
-      [SContinue]
-      [];
-      SAssign ["derivedKeyDigest"] [(ECall "hmac.New" [(EPkg "sha512.New"); (EConv "[]byte" (EStr "saltpack signcryption derived symmetric key"))])];
-      SAssign ["_"; "err"] [(ECall "Hash.Write" [(EVar "derivedKeyDigest"); (ECall "BoxPublicKey.ToKID" [(EVar "ephemeralPub")])])];
-      SIf [] (EBin ONe "bool" (EVar "err") ENil)
-      [SReturn [ENil; (EVar "err")]]
-      [];
-      SAssign ["_"; "err"] [(ECall "Hash.Write" [(EVar "derivedKeyDigest"); (ESlice (EVar "resolved") None None)])];
-      SIf [] (EBin ONe "bool" (EVar "err") ENil)
-      [SReturn [ENil; (EVar "err")]]
-      [];
-      SAssign ["derivedKey"; "err"] [(ECall "rawBoxKeyFromSlice" [(ESlice (ECall "Hash.Sum" [(EVar "derivedKeyDigest"); ENil]) (Some (EInt (0))) (Some (EInt (32))))])];
-      SIf [] (EBin ONe "bool" (EVar "err") ENil)
-      [SPanic (EStr "panic")]
-      [];
-      SAssign ["nonce"] [(ECall "nonceForPayloadKeyBoxV2" [(EConv "uint64" (EVar "index"))])];
-      SAssign ["payloadKey"; "isValid"] [(ECall "secretbox.Open" [ENil; (ESel (EIdx (ESel (EVar "hdr") "Receivers") (EVar "index")) "PayloadKeyBox"); (EVar "nonce"); (EVar "derivedKey")])];
-      SIf [] (ENot (EVar "isValid"))
-      [SReturn [ENil; (EErrVar "ErrDecryptionFailed")]]
-      [];
-      SAssign ["r'0"; "r'1"] [(ECall "symmetricKeyFromSlice" [(EVar "payloadKey")])];
-      SReturn [(EVar "r'0"); (EVar "r'1")]];
-      SReturn [ENil; ENil]].
-
-(* saltpack.signcryptOpenStream_processHeader, signcrypt_open.go *)
-Definition f_saltpack_signcryptOpenStream_processHeader : gfunc := mkFunc "saltpack.signcryptOpenStream_processHeader" ["sos"; "hdr"] []
-     [SIf [SAssign ["err"] [(ECall "SigncryptionHeader.validate" [(EVar "hdr")])]] (EBin ONe "bool" (EVar "err") ENil)
-      [SReturn [(EVar "err")]]
-      [];
-      SAssign ["ephemeralPub"] [(ECall "SigncryptKeyring.ImportBoxEphemeralKey" [(ESel (EVar "sos") "keyring"); (ESel (EVar "hdr") "Ephemeral")])];
-      SIf [] (EBin OEq "bool" (EVar "ephemeralPub") ENil)
-      [SReturn [(EErrVar "ErrBadEphemeralKey")]]
-      [];
-      SVar "err" "error";
-      SAssignL [(LField (LVar "sos") "payloadKey"); (LVar "err")] [(ECall "signcryptOpenStream.tryBoxSecretKeys" [(EVar "sos"); (EVar "hdr"); (EVar "ephemeralPub")])];
-      SIf [] (EBin ONe "bool" (EVar "err") ENil)
-      [SReturn [(EVar "err")]]
-      [];
-      SIf [] (EBin OEq "bool" (ESel (EVar "sos") "payloadKey") ENil)
-      [SAssignL [(LField (LVar "sos") "payloadKey"); (LVar "err")] [(ECall "signcryptOpenStream.trySharedSymmetricKeys" [(EVar "sos"); (EVar "hdr"); (EVar "ephemeralPub")])];
-      SIf [] (EBin ONe "bool" (EVar "err") ENil)
-      [SReturn [(EVar "err")]]
-      []]
-      [];
-      SIf [] (EBin OEq "bool" (ESel (EVar "sos") "payloadKey") ENil)
-      [SReturn [(EErrVar "ErrNoDecryptionKey")]]
-      [];
-      SAssign ["nonce"] [(ECall "nonceForSenderKeySecretBox" [])];
-      SAssign ["senderKeySlice"; "ok"] [(ECall "secretbox.Open" [(ELit "[]byte" []); (ESel (EVar "hdr") "SenderSecretbox"); (EVar "nonce"); (ESel (EVar "sos") "payloadKey")])];
-      SIf [] (ENot (EVar "ok"))
-      [SReturn [(EErrVar "ErrBadSenderKeySecretbox")]]
-      [];
-      SAssign ["zeroSlice"] [(ECall "make" [(ELen (EVar "senderKeySlice"))])];
-      SIf [] (ECall "bytes.Equal" [(EVar "zeroSlice"); (EVar "senderKeySlice")])
-      [SAssignL [(LField (LVar "sos") "senderAnonymous")] [(EBool true)]]
-      [SAssign ["spk"] [(ECall "SigncryptKeyring.LookupSigningPublicKey" [(ESel (EVar "sos") "keyring"); (EVar "senderKeySlice")])];
-      SIf [] (EBin OEq "bool" (EVar "spk") ENil)
-      [SReturn [(ELit "ErrNoSenderKey" [("Sender", (EVar "senderKeySlice"))])]]
-      [];
-      SAssignL [(LField (LVar "sos") "signingPublicKey")] [(EVar "spk")]];
-      SReturn [ENil]].
 
 (* saltpack.signcryptOpenStream_processBlock, signcrypt_open.go *)
 Definition f_saltpack_signcryptOpenStream_processBlock : gfunc := mkFunc "saltpack.signcryptOpenStream_processBlock" ["sos"; "payloadCiphertext"; "isFinal"; "seqno"] []
@@ -875,97 +334,7 @@ Definition f_saltpack_signcryptOpenStream_processBlock : gfunc := mkFunc "saltpa
       [];
       SReturn [(EVar "chunkPlaintext"); ENil]].
 
-(* saltpack.verifyStream_getNextChunk, verify_stream.go *)
-Definition f_saltpack_verifyStream_getNextChunk : gfunc := mkFunc "saltpack.verifyStream_getNextChunk" ["v"] []
-     [SAssign ["signature"; "chunk"; "isFinal"; "seqno"; "err"] [(ECall "readSignatureBlock" [(ESel (ESel (EVar "v") "header") "Version"); (ESel (EVar "v") "mps")])];
-      SIf [] (EBin ONe "bool" (EVar "err") ENil)
-      [SIf [] (EBin OEq "bool" (EVar "err") (EErrVar "io.EOF"))
-      [SAssign ["err"] [(EErrVar "io.ErrUnexpectedEOF")]]
-      [];
-      SReturn [ENil; (EVar "err")]]
-      [];
-      SAssign ["err"] [(ECall "verifyStream.processBlock" [(EVar "v"); (EVar "signature"); (EVar "chunk"); (EVar "isFinal"); (EVar "seqno")])];
-      SIf [] (EBin ONe "bool" (EVar "err") ENil)
-      [SReturn [ENil; (EVar "err")]]
-      [];
-      SAssign ["err"] [(ECall "checkDecodedChunkState" [(ESel (ESel (EVar "v") "header") "Version"); (EVar "chunk"); (EVar "seqno"); (EVar "isFinal")])];
-      SIf [] (EBin ONe "bool" (EVar "err") ENil)
-      [SReturn [ENil; (EVar "err")]]
-      [];
-      SIf [] (EVar "isFinal")
-      [SReturn [(EVar "chunk"); (ECall "assertEndOfStream" [(ESel (EVar "v") "mps")])]]
-      [];
-      SReturn [(EVar "chunk"); ENil]].
-
-(* saltpack.verifyStream_readHeader, verify_stream.go *)
-Definition f_saltpack_verifyStream_readHeader : gfunc := mkFunc "saltpack.verifyStream_readHeader" ["v"; "versionValidator"; "msgType"] []
-     [SVar "headerBytes" "[]byte";
-      SAssign ["_"; "err"] [(ECall "msgpackStream.Read" [(ESel (EVar "v") "mps"); (EAddr "headerBytes")])];
-      SIf [] (EBin ONe "bool" (EVar "err") ENil)
-      [SReturn [(EErrVar "ErrFailedToReadHeaderBytes")]]
-      [];
-      SAssignL [(LField (LVar "v") "headerHash")] [(ECall "hashHeader" [(EVar "headerBytes")])];
-      SVar "header" "SignatureHeader";
-      SAssign ["err"] [(ECall "decodeFromBytes" [(EAddr "header"); (EVar "headerBytes")])];
-      SIf [] (EBin ONe "bool" (EVar "err") ENil)
-      [SReturn [(EVar "err")]]
-      [];
-      SIf [SAssign ["err"] [(ECall "SignatureHeader.validate" [(EVar "header"); (EVar "versionValidator"); (EVar "msgType")])]] (EBin ONe "bool" (EVar "err") ENil)
-      [SReturn [(EVar "err")]]
-      [];
-      SAssignL [(LField (LVar "v") "header")] [(EAddr "header")];
-      SReturn [ENil]].
-
 (* saltpack.verifyStream_processBlock, verify_stream.go *)
 Definition f_saltpack_verifyStream_processBlock : gfunc := mkFunc "saltpack.verifyStream_processBlock" ["v"; "signature"; "payloadChunk"; "isFinal"; "seqno"] []
      [SReturn [(ECall "SigningPublicKey.Verify" [(ESel (EVar "v") "publicKey"); (ECall "attachedSignatureInput" [(ESel (ESel (EVar "v") "header") "Version"); (ESel (EVar "v") "headerHash"); (EVar "payloadChunk"); (EBin OSub "uint64" (EVar "seqno") (EInt (1))); (EVar "isFinal")]); (EVar "signature")])]].
-
-(* basex.encoder_Write, stream.go *)
-Definition f_basex_encoder_Write : gfunc := mkFunc "basex.encoder_Write" ["e"; "p"] [("n", "int"); ("err", "error")]
-     [SIf [] (EBin ONe "bool" (ESel (EVar "e") "err") ENil)
-      [SReturn [(EInt (0)); (ESel (EVar "e") "err")]]
-      [];
-      SAssign ["ibl"] [(ESel (ESel (EVar "e") "enc") "base256BlockLen")];
-      SAssign ["obl"] [(ESel (ESel (EVar "e") "enc") "baseXBlockLen")];
-      SIf [] (EBin OGt "bool" (ESel (EVar "e") "nbuf") (EInt (0)))
-      [SVar "i" "int";
-      SIf [SAssign ["i"] [(EInt (0))]] (EBool true) [SFor (EBin OAnd "bool" (EBin OLt "bool" (EVar "i") (ELen (EVar "p"))) (EBin OLt "bool" (ESel (EVar "e") "nbuf") (EVar "ibl")))
-      ([SAssignL [(LIndex (LField (LVar "e") "buf") (ESel (EVar "e") "nbuf"))] [(EIdx (EVar "p") (EVar "i"))];
-      SOpAssignL (LField (LVar "e") "nbuf") OAdd "int" (EInt 1)] ++ [SOpAssign "i" OAdd "int" (EInt 1)])] [];
-      SOpAssign "n" OAdd "int" (EVar "i");
-      SAssign ["p"] [(ESlice (EVar "p") (Some (EVar "i")) None)];
-      SIf [] (EBin OLt "bool" (ESel (EVar "e") "nbuf") (EVar "ibl"))
-      [SReturn [(EVar "n"); (EVar "err")]]
-      [];
-      SExpr (ECall "Encoding.Encode" [(ESel (EVar "e") "enc"); (ESel (EVar "e") "out"); (ESel (EVar "e") "buf")]);
-      SIf [SAssignL [(LVar "_"); (LField (LVar "e") "err")] [(ECall "Writer.Write" [(ESel (EVar "e") "w"); (ESlice (ESel (EVar "e") "out") None (Some (EVar "obl")))])]] (EBin ONe "bool" (ESel (EVar "e") "err") ENil)
-      [SReturn [(EVar "n"); (ESel (EVar "e") "err")]]
-      [];
-      SAssignL [(LField (LVar "e") "nbuf")] [(EInt (0))]]
-      [];
-      SFor (EBin OGe "bool" (ELen (EVar "p")) (EVar "ibl"))
-      [SAssign ["nn"] [(EBin OMul "int" (EBin ODiv "int" (ELen (ESel (EVar "e") "out")) (EVar "obl")) (EVar "ibl"))];
-      SIf [] (EBin OGt "bool" (EVar "nn") (ELen (EVar "p")))
-      [SAssign ["nn"] [(ELen (EVar "p"))];
-      SOpAssign "nn" OSub "int" (EBin OMod "int" (EVar "nn") (EVar "ibl"))]
-      [];
-      SExpr (ECall "Encoding.Encode" [(ESel (EVar "e") "enc"); (ESel (EVar "e") "out"); (ESlice (EVar "p") None (Some (EVar "nn")))]);
-      SIf [SAssignL [(LVar "_"); (LField (LVar "e") "err")] [(ECall "Writer.Write" [(ESel (EVar "e") "w"); (ESlice (ESel (EVar "e") "out") (Some (EInt (0))) (Some (EBin OMul "int" (EBin ODiv "int" (EVar "nn") (EVar "ibl")) (EVar "obl"))))])]] (EBin ONe "bool" (ESel (EVar "e") "err") ENil)
-      [SReturn [(EVar "n"); (ESel (EVar "e") "err")]]
-      [];
-      SOpAssign "n" OAdd "int" (EVar "nn");
-      SAssign ["p"] [(ESlice (EVar "p") (Some (EVar "nn")) None)]];
-      SExpr (ECall "copy" [(ESlice (ESel (EVar "e") "buf") (Some (EInt (0))) (Some (ELen (EVar "p")))); (EVar "p")]);
-      SAssignL [(LField (LVar "e") "nbuf")] [(ELen (EVar "p"))];
-      SOpAssign "n" OAdd "int" (ELen (EVar "p"));
-      SReturn [(EVar "n"); (EVar "err")]].
-
-(* basex.encoder_Close, stream.go *)
-Definition f_basex_encoder_Close : gfunc := mkFunc "basex.encoder_Close" ["e"] []
-     [SIf [] (EBin OAnd "bool" (EBin OEq "bool" (ESel (EVar "e") "err") ENil) (EBin OGt "bool" (ESel (EVar "e") "nbuf") (EInt (0))))
-      [SExpr (ECall "Encoding.Encode" [(ESel (EVar "e") "enc"); (ESel (EVar "e") "out"); (ESlice (ESel (EVar "e") "buf") None (Some (ESel (EVar "e") "nbuf")))]);
-      SAssignL [(LVar "_"); (LField (LVar "e") "err")] [(ECall "Writer.Write" [(ESel (EVar "e") "w"); (ESlice (ESel (EVar "e") "out") None (Some (ECall "Encoding.EncodedLen" [(ESel (EVar "e") "enc"); (ESel (EVar "e") "nbuf")])))])];
-      SAssignL [(LField (LVar "e") "nbuf")] [(EInt (0))]]
-      [];
-      SReturn [(ESel (EVar "e") "err")]].
 
